@@ -2,7 +2,6 @@
 not_applicable = {
  "C16": "data-race freedom and schedule independence quantify over goroutine interleavings; sequential function contracts (pre/post/invariant) cannot express or decide them, and no concurrent program logic for Go is available in this sandbox (DESIGN.md section 9, C16)",
  "C07": "byte-level encode/decode round trip and header-flag contracts are not built: they need the bit-vector mode for flag.go and write-through views of the Encoder scratch buffer, which the generator does not have yet; no contract within reach decides the property (DESIGN.md, Status)",
- "C13": "iterator step contracts are not written yet and the loaded-value iterators would need a bounded stand-in; only the pop bookkeeping of ArrayDataSlab.PopIterate is proved, which does not decide the property",
  "C17": "bulk build / copy / byte-conversion functions (NewArrayFromBatchData, nextLevel*Slabs, copyWithNewSlabID, ByteSliceToByteArray) are not under contract yet",
 }
 
@@ -58,6 +57,17 @@ add("C12",
     "hkeyElements.Set at level 0: a new key whose digest group already holds more than the (symbolic) limit of entries is refused with a collision-limit error and the element list and storage view are unchanged; any error leaves the list's own fields unchanged; strictly ascending digests preserved by Set/Remove.",
     "Element-level group operations (inline/external group spill and collapse) are interface contracts, not verified bodies; digests are uninterpreted per (key, level).",
     "DESIGN.md Status, 9/C12")
+add("C13",
+    "Per-step proofs for every array and map iterator flavour that is one function deep: range validation (RangeIterator / ReadOnlyRangeIteratorWithMutationCallback reject out-of-range and inverted bounds as user errors, "
+    "an empty range gives the empty iterator, otherwise the cursor covers exactly [start, end)); the mutable array cursor advances by exactly one per yielded element, stops exactly at the end, stays put on error and never "
+    "stops silently past the end (Array.Get rejects positions >= count); the read-only array cursor yields elements[k] of the current leaf, moves through the sibling link only when the leaf is exhausted and never yields more "
+    "than remainingCount; leaf descent by index returns the leaf/offset addressing flattened position i (ghost flat, defined by unfolding); map next-key hand-off: within a digest-sorted element list the successor of position j "
+    "is the successor inside element j if any, else the first key of element j+1, else none (hkeyElements), next list entry (singleElements), first key of the next child (MapMetaDataSlab, routed by first keys); "
+    "first-key descent (firstKeyInElement(s)/firstKeyInMapSlab/firstMapDataSlab) equals the ghost first key; mapElementIterator.next yields plain elements in list order and reports the end only at the end; readOnlyMapIterator.advance follows the sibling link.",
+    A_TREE + "Whole-enumeration statements (every element exactly once over a full traversal) are the composition of these steps over the assumed tree invariant and are not machine-checked; loaded-value iterators, "
+    "PopIterate order and mutation-during-iteration across slab splits are not covered; OrderedMap.getElementAndNextKey/getNextKey are trusted compositions; the ghost functions flat/fkE/fkEs/fkS/nkIn are defined by assumed unfoldings; "
+    "collision groups are assumed non-empty; nested cursors assumed acyclic.",
+    "DESIGN.md Status, 9/C13")
 add("C14",
     "commit and FastCommit (apply phase): at every return, error or not, processed ids are written and no longer pending, unprocessed ids are still pending with untouched registers, and the overlay view is unchanged for every id; a ledger error is returned categorised; NondeterministicFastCommit: partition loop for any map order, single-slab path, deletion loop and result loop (second view) preserve the view and coherence.",
     "A3 atomic register operations; A7 cuts: encoder goroutines / received results are assumed to be (id, EncodeSlab(deltas[id])); the retry-convergence lemma is an induction over these post-conditions, not re-proved by the solver.",
